@@ -154,6 +154,9 @@ def iterator(ctx, rule):
 
 
 def _iter_range(ctx, rule):
+    nb = ctx.body(ITER)
+    wr = [bi for bi, si, st, it in nb.locations() if not it and st["k"] == "assign" and st["place"]["p"] and any(x.get("n") == "range" for x in st["place"]["p"] if x.get("k") == "field")]
+    ctx.check(not wr, rule, ITER, "range:only-advanced", "the id range is only advanced by taking the next id (never cut short or reset)", detail=str(wr))
     im = ctx.body("ram_bundle::RamBundle::<'a>::iter_modules")
     aggs = [q.shape(im.expr_of_rvalue(s["rv"])) for bi, si, s, it in im.locations() if not it and s["k"] == "assign" and s["rv"]["k"] == "agg" and s["rv"].get("adt", "").endswith("RamBundleModuleIter")]
     ctx.check(aggs == ["RamBundleModuleIter{range:Range{start:0,end:RamBundle::module_count(arg1)},ram_bundle:arg1}"], rule, im.path, "range", "the iterator covers ids 0..module_count", detail=str(aggs))
